@@ -12,6 +12,8 @@ PLACEMENTS = {
     "dot": [".justfile"],
     "upper": ["JUSTFILE"],
     "mixed": [".Justfile"],
+    "dotupper": [".JUSTFILE"],
+    "bothcase": ["jUSTfile", ".JustFile"],
     "both": ["justfile", ".justfile"],
     "dupcase": ["justfile", "Justfile"],
     "dir": [],          # a DIRECTORY named `justfile`: not a file named justfile, the level has none
@@ -20,7 +22,7 @@ DIRECTORIES = {"dir": ["justfile"]}
 
 
 def level_choices(tier):
-    names = ["none", "justfile", "dot", "upper", "both", "dir"] if tier == "quick" else list(PLACEMENTS)
+    names = list(PLACEMENTS)
     out = []
     for pl in names:
         if PLACEMENTS[pl]:
@@ -219,8 +221,8 @@ def run(report):
     report.coverage.update({
         "evaluations": len(cases),
         "distinct_nontrivial": len(distinct),
-        "rule": "random sample of: directory chains of depth %d x per-level candidate placement {none, justfile, .justfile, JUSTFILE%s, both names%s} x (knows recipe, set fallback) x invocation level x form {just r, just REL/r from an ancestor, just ../r, --justfile, --justfile + --working-directory}; distinct = distinct (case, outcome)" % (
-            3 if tier == "quick" else 4, "" if tier == "quick" else ", .Justfile", "" if tier == "quick" else ", two case variants"),
+        "rule": "random sample of: directory chains of depth %d x per-level candidate placement {none, justfile, .justfile, JUSTFILE, .Justfile, .JUSTFILE%s, both names, both names in mixed case%s, a directory named justfile} x (knows recipe, set fallback) x invocation level x form {just r, just REL/r from an ancestor, just ../r, --justfile, --justfile + --working-directory}; distinct = distinct (case, outcome)" % (
+            3 if tier == "quick" else 4, "", ", two case variants of one name"),
         "samples": samples,
         "traces_validated_against_impl": len(cases),
         "stats": stats,
